@@ -206,6 +206,7 @@ def shape_list(tier):
                 (False, ("not", ("and", ("or", l, r), c))),
                 (False, ("not", ("or", ("and", l, r), c))),
                 (False, ("or", ("or", l, r), c)),
+                ((l, r, c) == (X[0], Y[0], XY[0]), ("not", ("or", ("or", l, r), c))),  # a negated disjunction of three with mixed variable sets
                 (False, ("and", ("and", l, r), ("not", c))),
             ]:
                 add(s, core and (l, r) in small[:2])
